@@ -162,7 +162,10 @@ impl<'p, 'a> Evaluator<'a, 'p> {
             }
         }
 
-        this.run()?;
+        if let Err(e) = this.run() {
+            this.abort();
+            return Err(e);
+        }
 
         let output = match output_kind {
             OutputKind::Value => EvalOutput::Value(this.value_stack.pop().unwrap()),
@@ -181,6 +184,18 @@ impl<'p, 'a> Evaluator<'a, 'p> {
         assert!(this.byte_array_stack.is_empty());
 
         Ok(output)
+    }
+
+    /// Undoes the state changes of an evaluation that failed half-way, so
+    /// the failure does not affect later evaluations on the same program.
+    fn abort(&mut self) {
+        for state in self.state_stack.iter() {
+            match state {
+                State::GotThunk(thunk) => thunk.restore_pending(),
+                State::ObjectAsserts(object) => object.asserts_checked.set(false),
+                _ => {}
+            }
+        }
     }
 
     fn run(&mut self) -> EvalResult<()> {
@@ -243,7 +258,7 @@ impl<'p, 'a> Evaluator<'a, 'p> {
                             }
                         }
                     }
-                    ThunkState::InProgress => {
+                    ThunkState::InProgress(_) => {
                         return Err(self.report_error(EvalErrorKind::InfiniteRecursion));
                     }
                 },
@@ -251,6 +266,7 @@ impl<'p, 'a> Evaluator<'a, 'p> {
                     let value = self.value_stack.last().unwrap();
                     thunk.set_done(value.clone());
                 }
+                State::ObjectAsserts(_) => {}
                 State::DeepValue => {
                     #[inline]
                     fn might_need_deep(thunk: &ThunkData<'_>) -> bool {
@@ -1630,6 +1646,7 @@ impl<'p, 'a> Evaluator<'a, 'p> {
     fn check_object_asserts(&mut self, object: &GcView<ObjectData<'p>>) {
         if !object.asserts_checked.get() {
             object.asserts_checked.set(true);
+            self.state_stack.push(State::ObjectAsserts(object.clone()));
             let layer_iter = object
                 .super_layers
                 .iter()
